@@ -265,6 +265,10 @@ func (s *Service) UpdateSyncCommitteeDataRecord(
 	s.slotDataRecordsMu.Lock()
 	s.slotDataRecords[slot] = synccommitteemessenger.SlotData{Root: root, ValidatorToCommitteeIndex: validatorToCommitteeIndex}
 	s.slotDataRecordsMu.Unlock()
+
+	// The records are only cleaned up on request, which only happens if sync committee inclusion
+	// is being verified.  Clean up here as well so that they do not accumulate otherwise.
+	s.RemoveHistoricDataUsedForSlotVerification(slot)
 }
 
 // GetDataUsedForSlot returns slot data recorded for the sync committee message for a given slot.
